@@ -4,7 +4,7 @@
 set -u
 id=$1; k=$2; W=/tmp/seed_${id}_${k}
 cd $W || exit 2
-feat=$(grep -o -- '--features [a-z,-]*' out/NOTES.txt | head -1)
+feat=$(grep -o -- '--features [a-z,-]*' out/NOTES.txt | grep -E 'streaming|backward-chaining|verif-hooks' | head -1)
 [ -f out/patch.diff ] || { echo "no patch"; exit 2; }
 # normalise: worktree = HEAD + patch, demo in tests/
 git checkout -q -- src 2>/dev/null; git apply out/patch.diff || { echo "patch does not apply to HEAD"; exit 2; }
